@@ -40,3 +40,13 @@ pub fn shim_hashmap_into_vec<K: std::cmp::Eq + std::hash::Hash, V>(m: HashMap<K,
 pub fn shim_vec_contains<T: PartialEq>(v: &Vec<T>, x: &T) -> (r: bool)
     ensures r == v@.contains(*x)
 { v.iter().any(|e| e == x) }
+
+// R17
+pub open spec fn values_of<K, V>(m: Map<K, V>, vs: Seq<&V>) -> bool {
+    &&& forall|k: K| m.contains_key(k) ==> exists|j: int| 0 <= j < vs.len() && *#[trigger] vs[j] == m[k]
+    &&& forall|j: int| 0 <= j < vs.len() ==> exists|k: K| m.contains_key(k) && #[trigger] m[k] == *#[trigger] vs[j]
+}
+#[verifier::external_body]
+pub fn shim_hashmap_values<'a, K, V>(m: &'a HashMap<K, V>) -> (r: Vec<&'a V>)
+    ensures values_of(m@, r@)
+{ m.values().collect() }
